@@ -39,6 +39,10 @@ func main() {
 
 	opt := newDefaultOptions()
 	opt.WorkDir = *workDir
+	// The embedded backend implements INCR/DECR and SET NX|XX as read-modify-write
+	// transactions; without conflict detection two clients can both read the old
+	// value and both commit (lost update, two winners of SET NX).
+	opt.DetectConflicts = true
 	if opt.MaxBatchCount <= 0 {
 		opt.MaxBatchCount = int64(opt.WriteBatchMaxCount)
 		if opt.MaxBatchCount <= 0 {
